@@ -208,6 +208,18 @@ def run(tier, seed):
                 F2[int(rng.integers(0, len(F2)))] += float(rng.choice([2e-4, -3e-5, 1e-6]))
                 fam2 = fam and (sum(abs(x) for x in F2) <= 0.9) and abs(F2[0]) >= 1e-3 and abs(F2[-1]) >= 1e-3
                 one(ctx, C, LP, F2, klass + "/near-duplicate", fam2, vecs[int(rng.integers(0, len(vecs)))], tol)
+    # threshold-adjacent members of the family: an inner conjugate root pair of 1 - F F~ with imaginary part 1e-8..1e-6
+    # (just past a collision of two real roots) - found by bisection, never by sampling
+    for n in ([2, 3, 4, 5, 7, 9, 12] if tier == "quick" else list(range(2, 13)) * 4):
+        nc = P.near_collision(rng, n)
+        if nc is None:
+            ctx.count("near-collision:not-constructed")
+            continue
+        Fc, im = nc
+        ctx.count("near-collision")
+        vecs, complete = P.seed_vectors(rng, n, min(exh, 4), 4)
+        for sv in vecs + [None]:
+            one(ctx, C, LP, Fc, "near-collision", True, sv, 1e-6)
     ctx.assumptions = ["that the floating-point root finder succeeds on the stated family is explored with complete seed enumeration (n<=%d), not proved" % exh]
     return ctx.finish(
         rule="real F of length n+1 (symmetric / antisymmetric / asymmetric; 1-norm in (0,2.5]; extreme coefficients above or below 1e-3) x "
